@@ -589,6 +589,53 @@ def c09m(ctx):
                  " / ::".join(b.name.split("::")[-1] for b in bad))
 
 
+def c09n(ctx):
+    """The staging overlay of a key-of-set entry is two sets built by replaying the log: an Insert takes the element out of
+    `removed` and puts it into `added`; a Remove takes it out of `added` and puts it into `removed`.  If one of the four
+    updates is missing the overlay is wrong in one direction only (a staged remove that is not recorded leaves the member
+    readable from the store; a staged insert that does not cancel an earlier remove hides a member) - nothing the
+    existing tests look at."""
+    prog = ctx.prog
+    o = ctx.ob("C09.n", "staging/snapshot-replays-both-halves-of-every-operation", "K8", "get_snapshot: Insert = removed.remove + added.insert, Remove = added.remove + removed.insert")
+    b = ctx.touch(prog.body("ConcurrentLog::get_snapshot"))
+    ag = b.aggregates(r"StagingShapshot$")
+    if len(ag) != 1:
+        ctx.fail(o, Site(b, 0, 0), "anchor missing: the StagingShapshot aggregate of get_snapshot")
+        return
+    rv = ag[0].node["rv"]
+    role = {}
+    for f, op_ in zip(rv["fields"], rv["ops"]):
+        for x in df.origins_of_operand(b, op_):
+            if x.kind == "call":
+                role[(x.site.bb, x.site.idx)] = f
+    arms = {}
+    for sb, tb, v, c in df.variant_edges(b, "cache::Operation"):
+        if v != "otherwise":
+            arms[int(v)] = (sb, tb)
+    if set(arms) != {0, 1} or set(role.values()) != {"added", "removed"}:
+        ctx.fail(o, Site(b, 0, 0), "anchor missing: the match on Operation / the two sets of get_snapshot")
+        return
+    seen = set()
+    for s_ in b.calls_to(r"HashSet::<T, S, A>::(insert|remove)$"):
+        which = None
+        for x in df.origins_of_operand(b, s_.node["args"][0]):
+            if x.kind == "call" and (x.site.bb, x.site.idx) in role:
+                which = role[(x.site.bb, x.site.idx)]
+        m = s_.node["fn"]["path"].rsplit("::", 1)[-1]
+        for v, (sb, tb) in arms.items():
+            other = arms[1 - v][1]
+            if s_.bb in b.reachable([tb], removed_nodes=[sb]) and s_.bb not in b.reachable([other], removed_nodes=[sb]):
+                seen.add((("Insert", "Remove")[v], which, m))
+    o.sites = len(seen)
+    want = {("Insert", "removed", "remove"), ("Insert", "added", "insert"), ("Remove", "added", "remove"), ("Remove", "removed", "insert")}
+    missing = want - seen
+    extra = {x for x in seen if x not in want}
+    if missing or extra:
+        ctx.fail(o, ag[0], "ConcurrentLog::get_snapshot does not replay both halves of every staged operation (missing: %s%s): the overlay of a key's set is wrong in one direction - "
+                 "a staged remove that is not recorded leaves the member readable from the store, an insert that does not cancel an earlier remove hides it" % (
+                     sorted("%s: %s.%s" % x for x in missing), "; unexpected: %s" % sorted("%s: %s.%s" % x for x in extra) if extra else ""))
+
+
 def c09g_staging(ctx):
     prog = ctx.prog
     # ---- a staging snapshot first applies the deferred messages
@@ -666,6 +713,7 @@ def run(ctx):
     ctx.run_clause("C09.g", c09g_order)
     ctx.run_clause("C09.h", c09h)
     ctx.run_clause("C09.i", c09i)
+    ctx.run_clause("C09.n", c09n)
     ctx.run_clause("C09.k", c09k)
     ctx.run_clause("C09.m", c09m)
     # un-pin notifications release cached entries for eviction: they may only follow the commit of the data they cover, which
